@@ -1,0 +1,8 @@
+//go:build verif
+
+// Hooks for the verification harness in /verif (suite `confine`, property C18). Compiled only with
+// `-tags verif`; thin exported wrappers around unexported identifiers, no behaviour of their own.
+package fs
+
+// VerifSanitizePath calls sanitizePath.
+func VerifSanitizePath(base, p string) (string, error) { return sanitizePath(base, p) }
